@@ -4,6 +4,7 @@
           hist_run hist-direct   the same without the memo table (slow)
           hist_run histd         histories of the recorded-deps model (HistDepsDefs.v), see the end of this comment
           hist_run histf         histories of the depfile-only model (HistDepfileDefs.v), see the end of this comment
+          hist_run histy         histories of the dyndep model (HistDyndepDefs.v), see the end of this comment
 
    [build], [apply_step], [clean_of] of HistDefs.v take the command function as a parameter.  `hist` passes a
    MEMOIZED [hcmd g] (a table from (statement, command hash, snapshot, output) to the hash value: the 64-bit arithmetic on
@@ -92,7 +93,21 @@
    abf=<frag_ABF: no deps = gcc statement, where the theorems are> topo= fragi= hro= nru= (both on to_log g) nip=
    hok=<fhist_ok> hp=<hist_present_f of the plain steps>.  Per Build:
       | B ok= ts=1 run=.. df=<e>:<n>+<n>../<e>:.. nodes=(as histd)
-        df = the depfiles that exist and the names each lists ("-" = none; "<e>:-" = a depfile without names) *)
+        df = the depfiles that exist and the names each lists ("-" = none; "<e>:-" = a depfile without names)
+
+   `histy` (HistDyndepDefs.v, fragment ABY): N= E= (the manifest WITHOUT dyndep information: a bound statement lists its dyndep
+   file among its implicit or order-only inputs) L=- and
+     Y=<dd>:<e>~<ins>~<outs>~<r>/<e>~..;<dd>:..    per dyndep file node, in dependency order, the statements bound to it and what
+                   the file says about each: implicit inputs, implicit outputs (node ids joined by '+', "-" = none), restat 0/1
+   steps e / d / c / b.  A dyndep file has a FIXED content (2000000000 + node), whatever its producer read.
+   Header: wf= frag=<frag_ABY> fragi=<frag_AB (inline_y g y)> topo= nip= (both on the inlined graph) ddo=<dd_ins_ordered>
+   nlr=<no_late_restat> ads=<all_dd_sources> hok= hp=<hist_present_y>.  Per Build:
+      | B res=<done|failed|refused> ok= ts=1 run=.. oldres= old=.. sl=<n>+.. iok= irun=.. eqi=<0|1> nodes=..
+        res / run: HistDyndepDefs.ybuild_f (CleanNode-faithful); failed = a mid-build load made the re-scan fail (the state is
+        what had happened until then); oldres / old: ybuild from the same state; sl = the dyndep files loaded at scan time
+        (scan_loads); iok / irun: HistFaithful.build_f of the INLINED manifest, which goes through the same history next to it;
+        eqi = the two are in the same state (disk, build log, clock) after this build (C11_equiv); nodes as in `hist`, q =
+        content_of = clean_of of the inlined manifest *)
 open Histmodel
 
 let rec pos_of_int n : positive =
@@ -508,6 +523,84 @@ let histf_line (l : string) : string =
       | `F s -> fs := fapply_step mcmd g hid !fs s) xsteps;
   Buffer.contents buf
 
+
+(* ---- the dyndep model (HistDyndepDefs.v): fragment ABY.  The manifest graph carries NO dyndep information (a bound statement
+   lists its dyndep file among its inputs); Y= is the ground truth of what the files say.  Steps e / d / c / b. *)
+let histy_line (l : string) : string =
+  let (kv, nnodes, ne, g) = parse_graph l in
+  let bind = Hashtbl.create 16 and yins = Hashtbl.create 16 and youts = Hashtbl.create 16 and yrs = Hashtbl.create 16
+  and yprod = Hashtbl.create 16 in
+  let dds = List.map (fun it -> match String.split_on_char ':' it with
+      | [dd; sts] ->
+        let dd = int_of_string dd in
+        List.iter (fun st -> match String.split_on_char '~' st with
+            | [e; ins; outs; r] ->
+              let e = int_of_string e in
+              Hashtbl.replace bind e (nat_of_int dd);
+              Hashtbl.replace yins e (nids '+' ins); Hashtbl.replace youts e (nids '+' outs);
+              if r = "1" then Hashtbl.replace yrs e ();
+              List.iter (fun o -> Hashtbl.replace yprod o (nat_of_int e)) (ids '+' outs)
+            | _ -> failwith "bad Y statement") (items '/' sts);
+        nat_of_int dd
+      | _ -> failwith "bad Y") (items ';' (field kv "Y")) in
+  let lk t e = match Hashtbl.find_opt t (int_of_nat e) with Some l -> l | None -> [] in
+  let y = { y_dds = dds; y_bind = (fun e -> Hashtbl.find_opt bind (int_of_nat e));
+            y_ins = lk yins; y_outs = lk youts; y_restat = (fun e -> Hashtbl.mem yrs (int_of_nat e));
+            y_prod = (fun n -> Hashtbl.find_opt yprod (int_of_nat n)) } in
+  let steps = List.map (fun t -> match parse_step t with P s -> s | _ -> failwith ("step outside histy: " ^ t))
+      (items ',' (field kv "S")) in
+  let b x = if x then "1" else "0" in
+  let js sep l = if l = [] then "-" else String.concat sep l in
+  let memo = Hashtbl.create 256 in
+  let key e h sn o = String.concat "," (string_of_int (int_of_nat e) :: string_of_int (int_of_nat o) :: hex_of_n h ::
+                      List.map (fun (i, c) -> match c with Some c -> hex_of_n c | None -> "-") sn) in
+  let isdd = Hashtbl.create 8 in
+  List.iter (fun dd -> Hashtbl.replace isdd (int_of_nat dd) ()) dds;
+  (* the command function: hcmd, except that the text of a dyndep file is a function of the ground truth alone (the
+     harness writes the same text whatever its producer read: ContentFor / ddtext): a fixed content per dyndep file *)
+  let mcmd e h sn o =
+    if Hashtbl.mem isdd (int_of_nat o) then n_of_int (2000000000 + int_of_nat o) else
+    let k = key e h sn o in
+    match Hashtbl.find_opt memo k with
+    | Some v -> v
+    | None -> let v = hcmd g e h sn o in Hashtbl.add memo k v; v in
+  let gi = inline_y g y in
+  let buf = Buffer.create 256 in
+  Buffer.add_string buf
+    (Printf.sprintf "wf=%s frag=%s fragi=%s topo=%s nip=%s ddo=%s nlr=%s ads=%s hok=%s hp=%s"
+       (b (wf_b gi (nat_of_int nnodes))) (b (frag_ABY g y)) (b (frag_AB gi)) (b (topo_ordered gi)) (b (no_inputless_phony gi))
+       (b (dd_ins_ordered g y)) (b (no_late_restat g y)) (b (all_dd_sources g y)) (b (hist_ok gi steps))
+       (b (hist_present_y mcmd g y (init_hstate g) steps)));
+  let nodes = List.init nnodes nat_of_int in
+  let es l = js "+" (List.map (fun e -> string_of_int (int_of_nat e)) l) in
+  let show st' =
+    js "," (List.map (fun n ->
+        let cl = b (opt_content_eqb (content_of st' n) (clean_of mcmd gi st' n)) in
+        let fl = match st'.h_disk n with
+          | Some (m, c) -> Printf.sprintf "1%s:%s:%d" cl (hex_of_n c) (int_of_z m)
+          | None -> Printf.sprintf "0%s:-:-" cl in
+        let lg = match st'.h_blog n with
+          | Some (h, m) -> Printf.sprintf "%s:%d" (hex_of_n h) (int_of_z m)
+          | None -> "-:-" in
+        fl ^ ":" ^ lg) nodes) in
+  let same a c = List.for_all (fun n -> a.h_disk n = c.h_disk n && a.h_blog n = c.h_blog n) nodes && a.h_clock = c.h_clock in
+  let st = ref (init_hstate g) in
+  let sti = ref (init_hstate gi) in          (* the inlined manifest through the same history (C11_equiv) *)
+  List.iter (fun s ->
+      match s with
+      | Build t ->
+        let res r = match r with YDone st' -> ("done", st') | YFailed st' -> ("failed", st') | YRefused -> ("refused", !st) in
+        let sl = scan_loads g y !st in
+        let (ores, ost) = res (ybuild mcmd g y !st t) in
+        let (rs, st') = res (ybuild_f mcmd g y !st t) in
+        let (iok, sti') = match build_f mcmd gi !sti t with Some x -> (true, x) | None -> (false, !sti) in
+        Buffer.add_string buf (Printf.sprintf " | B res=%s ok=%s ts=1 run=%s oldres=%s old=%s sl=%s iok=%s irun=%s eqi=%s nodes=%s"
+                                 rs (b (rs <> "refused")) (es (trace_delta !st st')) ores (es (trace_delta !st ost)) (es sl)
+                                 (b iok) (es (trace_delta !sti sti')) (b (same st' sti')) (show st'));
+        st := st'; sti := sti'
+      | _ -> st := apply_step mcmd g !st s; sti := apply_step mcmd gi !sti s) steps;
+  Buffer.contents buf
+
 let each_line f =
   try while true do
     let l = input_line stdin in
@@ -519,4 +612,5 @@ let () = match Sys.argv.(1) with
   | "hist-direct" -> each_line (hist_line true)
   | "histd" -> each_line histd_line
   | "histf" -> each_line histf_line
+  | "histy" -> each_line histy_line
   | c -> prerr_endline ("unknown component " ^ c); exit 2
